@@ -34,7 +34,6 @@ def jPErr (doc : Str) : PErr → String
   | .value => "{\"err\":\"ValueError\"}"
   | .parse _ => "{\"err\":\"ParseError\"}"
   | .stop => "{\"err\":\"StopIteration\"}"
-  | .type => "{\"err\":\"TypeError\"}"
   | .unbound => "{\"err\":\"UnboundLocalError\"}"
   | .exc => "{\"err\":\"Exception\"}"
   | .fuel => "{\"err\":\"HANG\"}"
